@@ -295,6 +295,8 @@ func C03(c *core.Ctx) {
 	c.Rule("C03-R8", "the calculation runs under the document's own rounding rule and included category whenever set", 1)
 	c03RuleSelection(c, "C03-R8")
 	c03RowPrecision(c)
+	c03CopySiblings(c)
+	c03DefaultsKeepInput(c)
 	c.Rule("C03-R6", "each rate row's amount and surcharge are Percent.Of(the row's stored Base)", 2)
 	rateAmountFromBase(c, "C03-R6")
 	// R3
